@@ -787,6 +787,7 @@ def expected_clause(v, strict, barriers_on):
 # Greedy/Clustering inputs small)
 PASS_CPU_BASE = 120.0
 PASS_CPU_PER_OP = 1.0
+READ_CPU_BASE = 60.0
 
 
 class CaseTimeout(BaseException):
@@ -803,7 +804,7 @@ def slug(msg: str) -> str:
     return msg[:48]
 
 
-def run_case(desc, want_lines=True, trace=False):
+def run_case(desc, want_lines=True, trace=False, cpu_budget=None):
     """Run one case on the real code.  Returns a JSON-able result dict."""
     from bqskit.ir.gates import CircuitGate
     pname, k, arg2 = desc['pass'], desc['k'], desc['arg2']
@@ -856,7 +857,7 @@ def run_case(desc, want_lines=True, trace=False):
     events = None
     # CPU-time budget of the pass (user time of this process: independent of
     # the load of the machine); typical runs need well under a second
-    budget = PASS_CPU_BASE + PASS_CPU_PER_OP * nops
+    budget = cpu_budget or PASS_CPU_BASE + PASS_CPU_PER_OP * nops
     signal.signal(signal.SIGVTALRM, _on_alarm)
     signal.setitimer(signal.ITIMER_VIRTUAL, budget)
     cpu0 = time.process_time()
@@ -871,6 +872,7 @@ def run_case(desc, want_lines=True, trace=False):
         return res
     except Exception as e:
         signal.setitimer(signal.ITIMER_VIRTUAL, 0)
+        res['cpu'] = time.process_time() - cpu0
         ref = REFUSES_WIDE.get(pname)
         msg = str(e)
         if ref and isinstance(e, ref[0]) and ref[1] in msg and maxw_all > k:
@@ -888,45 +890,57 @@ def run_case(desc, want_lines=True, trace=False):
     finally:
         signal.setitimer(signal.ITIMER_VIRTUAL, 0)
     res['cpu'] = time.process_time() - cpu0
-    strict, aware = PASS_INFO[pname]
-    v = oracle(before_lv, before.radixes, list(before), c, k_eff)
-    if u_before is not None and 'radixes' not in v:
-        try:
-            u_after = c.get_unitary().numpy
-            d = float(np.abs(u_after - u_before).max())
-            res['unitary_checked'] = True
-            if d > 1e-8:
-                v['unitary-changed'] = f'max |U_out - U_in| = {d:.3g}'
-        except Exception as e:
-            v['unitary-changed'] = 'get_unitary of the output raised ' + \
-                repr(e)[:200]
-    res['verdicts'] = v
-    res['nblocks'] = sum(isinstance(o.gate, CircuitGate) for o in c)
-    if want_lines:
-        r = Render()
-        ct = r.circ_text(before)
-        pt = r.circ_text(c)
-        bg = ' '.join(map(str, sorted(r.barrier_gids)))
-        checks = [f'check {k_eff} {int(strict)} {bg} | {ct} | {pt}']
-        exp = [expected_clause(v, strict, True)]
-        if not aware and has_bar:
-            # second look with barriers treated as ordinary gates
-            checks.append(f'check {k_eff} {int(strict)} | {ct} | {pt}')
-            exp.append(expected_clause(v, strict, False))
-        if events is not None:
-            from harness import c08_quick
-            qmoves, bmoves = events
-            ql, qe = c08_quick.render_events(r, before, qmoves, k, c)
-            checks.append(ql)
-            exp.append(qe)
-            checks.append(c08_quick.render_bins(r, before, bmoves))
-            exp.append('ok')
-            res['quick_events'] = len(qmoves)
-            res['bin_events'] = len(bmoves)
-        lines = ['reset'] + r.defs + checks
-        res['lines'] = lines
-        res['nprefix'] = 1 + len(r.defs)
-        res['expected'] = exp
+    # reading the returned circuit is budgeted too: a defective pass can return
+    # a circuit whose iteration does not terminate
+    read_budget = cpu_budget or READ_CPU_BASE + 0.2 * nops
+    signal.setitimer(signal.ITIMER_VIRTUAL, read_budget)
+    try:
+        strict, aware = PASS_INFO[pname]
+        v = oracle(before_lv, before.radixes, list(before), c, k_eff)
+        if u_before is not None and 'radixes' not in v:
+            try:
+                u_after = c.get_unitary().numpy
+                d = float(np.abs(u_after - u_before).max())
+                res['unitary_checked'] = True
+                if d > 1e-8:
+                    v['unitary-changed'] = f'max |U_out - U_in| = {d:.3g}'
+            except Exception as e:
+                v['unitary-changed'] = 'get_unitary of the output raised ' + \
+                    repr(e)[:200]
+        res['verdicts'] = v
+        res['nblocks'] = sum(isinstance(o.gate, CircuitGate) for o in c)
+        if want_lines:
+            r = Render()
+            ct = r.circ_text(before)
+            pt = r.circ_text(c)
+            bg = ' '.join(map(str, sorted(r.barrier_gids)))
+            checks = [f'check {k_eff} {int(strict)} {bg} | {ct} | {pt}']
+            exp = [expected_clause(v, strict, True)]
+            if not aware and has_bar:
+                # second look with barriers treated as ordinary gates
+                checks.append(f'check {k_eff} {int(strict)} | {ct} | {pt}')
+                exp.append(expected_clause(v, strict, False))
+            if events is not None:
+                from harness import c08_quick
+                qmoves, bmoves = events
+                ql, qe = c08_quick.render_events(r, before, qmoves, k, c)
+                checks.append(ql)
+                exp.append(qe)
+                checks.append(c08_quick.render_bins(r, before, bmoves))
+                exp.append('ok')
+                res['quick_events'] = len(qmoves)
+                res['bin_events'] = len(bmoves)
+            lines = ['reset'] + r.defs + checks
+            res['lines'] = lines
+            res['nprefix'] = 1 + len(r.defs)
+            res['expected'] = exp
+    except CaseTimeout:
+        res['verdicts'] = {'broken-circuit': (
+            'reading the returned circuit (iteration, unfolding, unitary) did '
+            f'not terminate within {read_budget:.0f} s of CPU time')}
+        res.update(nblocks=0, lines=[], nprefix=0, expected=[])
+    finally:
+        signal.setitimer(signal.ITIMER_VIRTUAL, 0)
     return res
 
 
@@ -985,17 +999,27 @@ def worker(args):
 
 
 # ------------------------------------------------------------- shrinking
-def shrink(desc, flag, budget=150):
-    """smallest step list on which the same verdict flag / exception recurs"""
+SHRINK_CPU_S = 60.0
+
+
+def shrink(desc, flag, budget=150, cpu=None):
+    """smallest step list on which the same verdict flag / exception recurs.
+    A candidate on which the pass needs much longer than on the failing case
+    (`cpu` seconds) is given up - a defective pass may loop on the reduced
+    circuits - and the whole search stops after SHRINK_CPU_S of CPU time."""
     count = [0]
+    per_run = max(5.0, 20.0 * (cpu or 0.0))
+    stop = time.process_time() + SHRINK_CPU_S
 
     def fails(steps):
         count[0] += 1
-        if count[0] > budget:
+        left = stop - time.process_time()
+        if count[0] > budget or left <= 0:
             return False
         d = dict(desc, steps=steps)
         try:
-            r = run_case(d, want_lines=False)
+            r = run_case(d, want_lines=False,
+                         cpu_budget=max(1.0, min(per_run, left)))
         except Exception:
             return False
         if flag.startswith('exception:'):
@@ -1178,7 +1202,8 @@ def process(ck: Check, results):
             sig = f'exception:{pname}:{r["excsig"]}'
             desc = r['desc']
             if not is_known(ck, sig):
-                desc = shrink(desc, f'exception:{r["excsig"]}')
+                desc = shrink(desc, f'exception:{r["excsig"]}',
+                              cpu=r.get('cpu'))
             ck.violation(
                 sig, f'{pname}(block_size={r["k"]}) raised {et}: {msg} on a '
                 'valid input instead of returning a circuit',
@@ -1201,7 +1226,7 @@ def process(ck: Check, results):
                 sig += ':cyclic-blocks'
             desc = r['desc']
             if not is_known(ck, sig):
-                desc = shrink(desc, flag)
+                desc = shrink(desc, flag, cpu=r.get('cpu'))
             ck.violation(
                 sig, f'{pname}(block_size={r["k"]}): {WHAT[flag]} ({detail})',
                 {'desc': desc, 'python': describe(desc), 'detail': detail})
